@@ -4,6 +4,7 @@ package props
 // RunSingleModel callers do: all four arrays are cdata views on C buffers.
 
 import (
+	"verif/core"
 	"github.com/flowmatters/openwater-core/data"
 	"github.com/flowmatters/openwater-core/data/cdata"
 )
@@ -54,4 +55,16 @@ func ExecuteC(r *MRun, mode string) (*MOut, bool, error) {
 	}
 	o := &MOut{Out: From3(oArr, r.N, len(ref.Desc.Outputs), r.T), States: From2(sArr)}
 	return o, ok, nil
+}
+
+// ExecuteFor runs r for case c. Where a model's arrays live is part of the input: every sixth case runs with all four
+// arrays in caller-owned (C) memory, the way libopenwater's callers hold them, the others on Go-backed arrays. The
+// choice depends on the case index only, so the random draws of the case are the same either way.
+func ExecuteFor(c *core.Ctx, r *MRun) (*MOut, error) {
+	if c == nil || c.Idx%6 != 5 || r.PadCells != 0 || r.PadT != 0 || len(r.Surplus) != 0 {
+		return Execute(r)
+	}
+	c.Tag("arrays:caller-c-memory")
+	o, _, err := ExecuteC(r, []string{"guard-after", "guard-before", "malloc"}[(c.Idx/6)%3])
+	return o, err
 }
